@@ -59,9 +59,10 @@ def run(ctx):
                 ("rule-lists", conf(2, 0, 1, 2, RL4, odd=False), None),
                 ("sample", conf(3, 2, 2, 3, RL4, 55), None)]
     else:
-        runs = [("one-directive", conf(3, 2, 2, 1), "coverage"),
+        runs = [("one-directive", conf(3, 2, 1, 1), "coverage"),
+                ("one-directive-2subs", conf(2, 1, 2, 1), None),
                 ("two-directives-2subs", conf(2, 1, 2, 2, RL2, odd=False), None),
-                ("two-directives-nested", conf(3, 2, 1, 2, RL2, odd=False), None),
+                ("two-directives-nested", conf(2, 2, 1, 2, RL3, odd=False), None),
                 ("deep-flat", conf(4, 0, 1, 3, RL2, odd=False), None),
                 ("rule-lists", conf(2, 1, 1, 2, RL4, odd=False), None),
                 ("sample", conf(4, 2, 2, 4, RL4, 120), None)]
